@@ -246,6 +246,34 @@ pub fn exec_snap_n<N: Analysis<Main> + Default + 'static>(ops: Vec<Op>, seed: u6
                 outs.push("1".into());
             }
         }
+        // `lookup_rec_expr` on the inserted terms, on renamed copies and on terms with one operator changed
+        for op in ops.iter() {
+            if let Op::Add(t) = op {
+                let mut variants: Vec<ATerm> = vec![t.clone()];
+                let fs = free_slots(t);
+                if !fs.is_empty() {
+                    let img: Vec<u32> = vec![16, 22, 26, 4, 8, 12];
+                    let fs2 = fs.clone();
+                    variants.push(rename_free(t, &move |c| fs2.iter().position(|x| *x == c).and_then(|i| img.get(i).copied()).unwrap_or(c)));
+                }
+                if !t.children.is_empty() {
+                    variants.push(ATerm { v: 13, fields: vec![CField::App], children: vec![t.clone()] });
+                }
+                for v in variants {
+                    let re = to_recexpr::<Main>(&v);
+                    qs.push(format!("lookrec {}", enc_term(&v).replace(' ', "")));
+                    outs.push(match guarded(|| lookup_rec_expr(&re, &eg)) {
+                        Ok(Some(a)) => {
+                            let mut sl: Vec<u32> = a.slots().iter().map(|s| code(*s)).collect();
+                            sl.sort();
+                            format!("{}:[{}]", a.id.0, sl.iter().map(|x| x.to_string()).collect::<Vec<_>>().join(","))
+                        }
+                        Ok(None) => "none".into(),
+                        Err(_) => "panic".into(),
+                    });
+                }
+            }
+        }
         // the read-only functions must not change the state (modulo path compression): dump again
         let snap2 = eg.verif_snapshot(|_| "-".to_string()).trim_end().replace('\n', "~");
         let strip_uf = |s: &str| s.split('~').filter(|l| !l.starts_with("uf ")).collect::<Vec<_>>().join("~");
